@@ -329,6 +329,77 @@ Proof.
   split; assumption.
 Qed.
 
+(** ** the code's own residual at a returned point determines the junction residuals exactly
+    (so the flux tolerance of the direct validation is DERIVED from sol.fun through
+    [near_root_flux_bound], not calibrated) *)
+Definition scale_of (Tpm0 : R * R) (Tp Tm : R) : R :=
+  (2 ^ 2 + (Tp / fst Tpm0) ^ 2 + (Tm / snd Tpm0) ^ 2) *
+  (2 ^ 2 + (fst Tpm0 / Tp) ^ 2 + (snd Tpm0 / Tm) ^ 2).
+
+Lemma matching_given_components vw vp Tpm0 x :
+  matching_given e vw vp Tpm0 x =
+  ((fst (vpvmAndvpovm e (Tp_of x) (Tm_of x)) * snd (vpvmAndvpovm e (Tp_of x) (Tm_of x)) - vp ^ 2)
+     * scale_of Tpm0 (Tp_of x) (Tm_of x),
+   (fst (vpvmAndvpovm e (Tp_of x) (Tm_of x)) / snd (vpvmAndvpovm e (Tp_of x) (Tm_of x))
+      - Rmin (vw ^ 2) (csqLowT e (Tm_of x))) * scale_of Tpm0 (Tp_of x) (Tm_of x)).
+Proof.
+  unfold matching_given, Tp_of, Tm_of, scale_of. cbv zeta.
+  destruct (vpvmAndvpovm e (fst (_inverseMappingT e x)) (snd (_inverseMappingT e x))) as [a b].
+  cbn [fst snd]. f_equal; ring.
+Qed.
+
+Theorem residual_to_junction vw vp vm Tpm0 x f1 f2 :
+  0 < vp -> 0 < vm -> admissible (Tp_of x) (Tm_of x) ->
+  matching_given e vw vp Tpm0 x = (f1, f2) ->
+  vm ^ 2 = Rmin (vw ^ 2) (csqLowT e (Tm_of x)) ->
+  let Tp := Tp_of x in let Tm := Tm_of x in
+  let c := scale_of Tpm0 Tp Tm in let r1 := f1 / c in let r2 := f2 / c in
+  let A := fst (vpvmAndvpovm e Tp Tm) in let B := snd (vpvmAndvpovm e Tp Tm) in
+  0 < c /\
+  res1 vp vm Tp Tm * (vp * vm + A)
+    = - (eHighT e Tp - eLowT e Tm) * (vp ^ 2 * r2 + vm ^ 2 * r1 + r1 * r2) /\
+  res2 vp vm Tp Tm * (vp + vm * B) * (vm ^ 2 + r2)
+    = (eHighT e Tp + pLowT e Tm) * (vp ^ 2 * r2 - vm ^ 2 * r1).
+Proof.
+  intros Hp Hm Hadm Hf Hvm Tp Tm c r1 r2 A B.
+  assert (Hc : 0 < c) by (unfold c, scale_of; apply scale_factor_pos).
+  rewrite matching_given_components in Hf. apply pair_eq in Hf. destruct Hf as [F1 F2].
+  rewrite <- Hvm in F2. fold Tp Tm in F1, F2. fold c in F1, F2. fold A B in F1, F2.
+  destruct Hadm as [Hne [Hd1 Hd2]]. fold Tp Tm in Hne, Hd1, Hd2.
+  pose proof (vpvmAndvpovm_regular Tp Tm Hne) as Reg.
+  assert (EA : A = (pHighT e Tp - pLowT e Tm) / (eHighT e Tp - eLowT e Tm))
+    by (unfold A; rewrite Reg; reflexivity).
+  assert (EB : B = (eLowT e Tm + pHighT e Tp) / (eHighT e Tp + pLowT e Tm))
+    by (unfold B; rewrite Reg; reflexivity).
+  assert (HB : 0 < B) by (rewrite EB; apply Rdiv_lt_0_compat; lra).
+  clearbody A B c.
+  assert (R1 : A * B = vp * vp + r1) by (unfold r1; rewrite <- F1; field; lra).
+  assert (R2 : A / B = vm * vm + r2) by (unfold r2; rewrite <- F2; field; lra).
+  destruct (residual_identities A B vp vm r1 r2 HB R1 R2) as [I1 I2].
+  split; [exact Hc|]. split.
+  - replace (res1 vp vm Tp Tm) with ((eHighT e Tp - eLowT e Tm) * (vp * vm - A)).
+    + replace ((eHighT e Tp - eLowT e Tm) * (vp * vm - A) * (vp * vm + A))
+        with ((eHighT e Tp - eLowT e Tm) * ((vp * vm - A) * (vp * vm + A))) by ring.
+      rewrite I1. ring.
+    + unfold res1. rewrite EA. field. lra.
+  - replace (res2 vp vm Tp Tm) with ((eHighT e Tp + pLowT e Tm) * (vp - vm * B)).
+    + replace ((eHighT e Tp + pLowT e Tm) * (vp - vm * B) * (vp + vm * B) * (vm ^ 2 + r2))
+        with ((eHighT e Tp + pLowT e Tm) * ((vp - vm * B) * (vp + vm * B) * (vm * vm + r2))) by ring.
+      rewrite I2. ring.
+    + unfold res2. rewrite EB. field. lra.
+Qed.
+
+(** detonations: the residual handed to brentq is (e+ - e-) (vw^2 - A B); the returned v- has
+    v-^2 = A/B exactly, so r2 = 0 and r1 = - f / (e+ - e-) *)
+Theorem deton_residual vw tm :
+  admissible (Tnucl e) tm ->
+  tmFromvpsq e vw tm = (eHighT e (Tnucl e) - eLowT e tm) *
+    (vw ^ 2 - fst (vpvmAndvpovm e (Tnucl e) tm) * snd (vpvmAndvpovm e (Tnucl e) tm)).
+Proof.
+  intros [Hne [Hd1 Hd2]]. rewrite (vpvmAndvpovm_regular _ _ Hne). cbn [fst snd].
+  unfold tmFromvpsq. cbv zeta. rewrite enthalpyHigh, enthalpyLow. field. split; lra.
+Qed.
+
 End C02.
 
 (** ** the closed-form template solver (HydrodynamicsTemplateModel), for EVERY template
@@ -408,6 +479,12 @@ Proof.
 Qed.
 End TemplateClass.
 
+
+(** ** return paths: whatever findMatching returns is matchDeton(vwTry), matchDeflagOrHyb(vwTry,
+    sol.root) or the template fallback; findHydroBoundaries builds c1, c2 from
+    findMatching(vwTry) and nothing else defines vp, vm, Tp, Tm (facts [path_facts]) *)
+Theorem return_paths : paths_wellformed path_facts = true.
+Proof. vm_compute. reflexivity. Qed.
 
 (** ** roles of the tolerances in EVERY root_scalar / root call of the two classes (facts
     [tol_facts] regenerated from the source): the bracket solvers are asked for the accuracy
@@ -581,3 +658,31 @@ Theorem C02_tolerance_roles : forall f rt at_ x,
   (tf_kind f = RootScalar -> requested_accuracy f rt at_ x = at_ + rt * Rabs x).
 Proof. exact tolerance_roles. Qed.
 Print Assumptions C02_tolerance_roles.
+
+Theorem C02_residual_to_junction : forall e vw vp vm Tpm0 x f1 f2,
+  0 < vp -> 0 < vm -> admissible e (Tp_of e x) (Tm_of e x) ->
+  matching_given e vw vp Tpm0 x = (f1, f2) ->
+  vm ^ 2 = Rmin (vw ^ 2) (csqLowT e (Tm_of e x)) ->
+  let Tp := Tp_of e x in let Tm := Tm_of e x in
+  let c := scale_of Tpm0 Tp Tm in let r1 := f1 / c in let r2 := f2 / c in
+  let A := fst (vpvmAndvpovm e Tp Tm) in let B := snd (vpvmAndvpovm e Tp Tm) in
+  0 < c /\
+  res1 e vp vm Tp Tm * (vp * vm + A)
+    = - (eHighT e Tp - eLowT e Tm) * (vp ^ 2 * r2 + vm ^ 2 * r1 + r1 * r2) /\
+  res2 e vp vm Tp Tm * (vp + vm * B) * (vm ^ 2 + r2)
+    = (eHighT e Tp + pLowT e Tm) * (vp ^ 2 * r2 - vm ^ 2 * r1).
+Proof. exact residual_to_junction. Qed.
+Print Assumptions C02_residual_to_junction.
+
+Theorem C02_deton_residual : forall e,
+  (forall T, wHighT e T = eHighT e T + pHighT e T) ->
+  (forall T, wLowT e T = eLowT e T + pLowT e T) ->
+  forall vw tm, admissible e (Tnucl e) tm ->
+  tmFromvpsq e vw tm = (eHighT e (Tnucl e) - eLowT e tm) *
+    (vw ^ 2 - fst (vpvmAndvpovm e (Tnucl e) tm) * snd (vpvmAndvpovm e (Tnucl e) tm)).
+Proof. exact deton_residual. Qed.
+Print Assumptions C02_deton_residual.
+
+Theorem C02_return_paths : paths_wellformed path_facts = true.
+Proof. exact return_paths. Qed.
+Print Assumptions C02_return_paths.
